@@ -48,6 +48,25 @@ def observe(vec):
         result = {"status": "err", "error": str(error)}
     except Exception as error:  # noqa
         result = {"status": "crash", "error": "%s: %s" % (type(error).__name__, error)}
+    # the same characters as a file: a path is read with the declared encoding and WITHOUT any translation of line ends
+    if result["status"] != "crash":
+        import os
+        folder = core.workdir("c13file%d" % os.getpid())
+        try:
+            path = os.path.join(folder, "fixed.txt")
+            with open(path, "wb") as target:
+                target.write(text.encode("utf-8"))
+            try:
+                from_path = {"status": "ok", "rows": list(rowio.fixed_rows(path, "utf-8", fields, DELIM[vec["delim"]]))}
+            except errors.DataFormatError as error:
+                from_path = {"status": "err", "error": str(error)}
+            except Exception as error:  # noqa
+                from_path = {"status": "crash", "error": "%s: %s" % (type(error).__name__, error)}
+        finally:
+            core.cleanup(folder)
+        if (from_path["status"], from_path.get("rows")) != (result["status"], result.get("rows")):
+            from_path["note"] = "read from a file with these bytes instead of a stream"
+            return from_path
     # the names of the fields are labels for messages: a layout with several columns of the same name ("filler") is the
     # same layout and must be read the same way, well-formed or not
     if len(fields) >= 2 and result["status"] != "crash":
